@@ -79,6 +79,12 @@ func c15Op(rng *rand.Rand, a, b Expr, tag string) (Stmt, string) {
 	case 15:
 		// nested method calls inside arguments
 		switch rng.IntN(8) {
+		case 4:
+			// the pushed value is null by absence (an index past the end / a missing member of another container)
+			if rng.IntN(2) == 0 {
+				return Pr(S(tag+" push(b[9])"), jsonOf(Meth(a, "push", Idx(b, N("9"))))), "nested"
+			}
+			return Pr(S(tag+" push(o.nope)"), jsonOf(Meth(a, "push", Mem(V("o"), "nope")))), "nested"
 		case 5:
 			// the same method nested in its own argument
 			return Pr(S(tag+" push(b.push(v))"), jsonOf(Meth(a, "push", Meth(b, "push", c15Value(rng))))), "nested"
@@ -291,6 +297,41 @@ func c15ContainsLaw(c *Case) {
 			}
 		}
 	}
+	// contains() on long arrays of one kind, before and after writes that do not change the length
+	for n := 0; n < 24; n++ {
+		rng := caseRng(c.Seed, "C15-contains-long", n)
+		ln := []int{31, 32, 33, 40, 64, 100}[n%6]
+		var items []Expr
+		for i := 0; i < ln; i++ {
+			if n%4 == 3 {
+				items = append(items, N(strconv.Itoa(i*3)))
+			} else {
+				items = append(items, S(fmt.Sprintf("s%d", i)))
+			}
+		}
+		a := Expr(V("a"))
+		val := func(i int) Expr {
+			if n%4 == 3 {
+				return N(strconv.Itoa(i * 3))
+			}
+			return S(fmt.Sprintf("s%d", i))
+		}
+		i1, i2 := rng.IntN(ln), rng.IntN(ln)
+		body := []Stmt{asg(a, Arr(items...)),
+			Pr(S("before"), Meth(a, "contains", val(i1)), Meth(a, "contains", S("new")), Meth(a, "contains", val(i2)), Meth(a, "contains", N("7"))),
+			asg(Idx(a, N(strconv.Itoa(i1))), S("new")),
+			Pr(S("after-store"), Meth(a, "contains", val(i1)), Meth(a, "contains", S("new")), Meth(a, "contains", val(i2))),
+			asg(Idx(a, &Unary{Op: "-", X: N("1")}), S("last")),
+			Pr(S("after-store-from-end"), Meth(a, "contains", val(ln-1)), Meth(a, "contains", S("last"))),
+			asg(V("al"), a), asg(Idx(V("al"), N(strconv.Itoa(i2))), N("7")),
+			Pr(S("after-store-through-second-name"), Meth(a, "contains", val(i2)), Meth(a, "contains", N("7")), Meth(V("al"), "contains", S("new"))),
+			ES(Meth(a, "push", S("pushed"))), Pr(S("after-push"), Meth(a, "contains", S("pushed")), Meth(a, "contains", S("new")), Meth(a, "length")),
+			ES(Meth(a, "pop")), Pr(S("after-pop"), Meth(a, "contains", S("pushed")), Meth(a, "length"))}
+		p := &Program{Items: []any{&Rule{Kind: "BEGIN", Body: &Block{Stmts: body}}}}
+		c.NonTrivial(fmt.Sprintf("containslong:%d", n))
+		c.Count("contains_on_long_arrays_programs")
+		m2(c, &M2Case{Prog: p, Desc: fmt.Sprintf("contains() on an array of %d elements before and after in-place writes", ln)})
+	}
 	// sort() yields a new array also when there is nothing to reorder: changing either leaves the other alone
 	for ln := 0; ln <= 3; ln++ {
 		for variant := 0; variant < 6; variant++ {
@@ -417,7 +458,7 @@ func c15Run(c *Case) {
 func init() {
 	register(&Prop{
 		ID: "C15", Level: "exploration",
-		Rule:          "sampled histories of 5-40 operations (push pop popfirst index-read index-write length contains sort, nested method calls inside arguments) over two arrays held by a variable, $-path, object member or array element, in half of the histories the first one also by a second name through which a third of the operations go (a length change is seen through every reference), element values of every kind; after every operation the program prints the result and json()/length() of both arrays, compared with an ideal-list model; candidate steps leaving the stated semantics are discarded with the model. Enumerated: every ordered pair of 13 operations on arrays of length 0,1,2,5 (676 programs); contains(v) vs v == a[0] on 17x17 value pairs (law on the implementation alone); sort() of 0-3 elements gives a new array (24 programs storing / pushing / popping through the result and the receiver afterwards); 40 sorts of 13-52 elements with equal keys of different kinds (stable). Non-trivial = history with a removal followed by an append/extension, or a nested call; distinct by program text.",
+		Rule:          "sampled histories of 5-40 operations (push pop popfirst index-read index-write length contains sort, nested method calls inside arguments) over two arrays held by a variable, $-path, object member or array element, in half of the histories the first one also by a second name through which a third of the operations go (a length change is seen through every reference), element values of every kind; after every operation the program prints the result and json()/length() of both arrays, compared with an ideal-list model; candidate steps leaving the stated semantics are discarded with the model. Enumerated: every ordered pair of 13 operations on arrays of length 0,1,2,5 (676 programs); contains(v) vs v == a[0] on 17x17 value pairs (law on the implementation alone); contains() on arrays of 31-100 strings / numbers before and after stores that keep the length (24 programs); sort() of 0-3 elements gives a new array (24 programs storing / pushing / popping through the result and the receiver afterwards); 40 sorts of 13-52 elements with equal keys of different kinds (stable). Non-trivial = history with a removal followed by an append/extension, or a nested call; distinct by program text.",
 		NumCases:      c15Cases,
 		Run:           c15Run,
 		MinConclusive: func(tier string) int { return 3000 },
